@@ -205,6 +205,36 @@ pub fn run(ctx: &mut Ctx) {
             st.fail(f);
         }
     });
+    // dynamic plans: every single-channel mask on every channel index (the only usable channel is the
+    // one just created), and every pair "highest defined index x lowest enabled index"
+    ctx.parallel(|ti, n, st| {
+        let mut k = 0usize;
+        for region in REGIONS.iter().filter(|r| !r.fixed()) {
+            let reg = Reg::from_name(region.name()).unwrap();
+            let f = gen::freq_set(reg)[4];
+            let nd = reg.default_channels().len() as u8;
+            for front in [FrontKind::Async, FrontKind::Nb] {
+                for hi in nd..16u8 {
+                    for only in 0..=hi {
+                        k += 1;
+                        if k % n != ti {
+                            continue;
+                        }
+                        let mut cmds = vec![crate::drive::net::Cmd::NewChannelReq { idx: hi, freq: f, dr_range: 0x50 }];
+                        if only >= nd && only != hi {
+                            cmds.push(crate::drive::net::Cmd::NewChannelReq { idx: only, freq: f + 200_000, dr_range: 0x50 });
+                        }
+                        cmds.push(crate::drive::net::Cmd::LinkAdrReq { dr: 15, txp: 15, mask: 1u16 << only, cntl: 0, nbtrans: 1 });
+                        let h = History { cfg: DevCfg { region: *region, join_bias: None, front, board: (14, 0) }, activation: Activation::Abp { fcnt_up: 0, fcnt_down: None }, board: Board::default(), rng_script: vec![], rng_seed: seed ^ k as u64,
+                            steps: vec![Step::Send { port: 1, len: 1, confirmed: false, rx: RxPlan::rx1(crate::drive::net::Recipe::auth_cmds(1, cmds)) }, Step::Send { port: 1, len: 1, confirmed: false, rx: RxPlan::default() }, Step::Send { port: 1, len: 1, confirmed: false, rx: RxPlan::default() }] };
+                        if let Err(f) = run_one(&h, st, "single-channel-mask") {
+                            st.fail(f);
+                        }
+                    }
+                }
+            }
+        }
+    });
     // frequency tables of the fixed plans, entry by entry, through forced join sequences
     ctx.parallel(|ti, n, st| {
         for (k, region) in [RegionId::Us915, RegionId::Au915].iter().enumerate() {
